@@ -5,7 +5,7 @@ CONSTANTS DefaultMaxDepth = 20
   FixF6 = FALSE
   FixEq = FALSE
   FixF5 = FALSE
-  MaxNodes = 4
+  MaxNodes = 3
   MaxHeight = 3
   Decos = {0}
   MDs = {0}
